@@ -48,12 +48,25 @@ def run(rep, tier):
         raise AnalysisBroken("set_thread_state definition not unique")
     fn = sts[0]
     ff = FactFlow(fn)
-    active_atom = "%s == %s" % tuple(sorted(["previous_state_val", TSS + "::active"]))
+    # names are derived from roles: the requested state is the 2nd parameter, 'previous state' is the local that
+    # receives ...->get_state(), its scheduling state the local(s) initialised with <previous>.state()
+    NEW = fn.params[1]["name"]
+    prevs = [P(e.get("recv") if e.get("k") == "call" else e["lhs"]) for _, _, e in fn.all_events()
+             if ((e.get("k") == "call" and e.get("op") == "=" and e.get("args") and callee_short(strip(e["args"][0])) == "get_state") or
+                 (e.get("k") == "write" and isinstance(strip(e.get("rhs")), dict) and callee_short(strip(e["rhs"])) == "get_state"))]
+    if len(set(prevs)) != 1:
+        raise AnalysisBroken("set_thread_state: the local holding the previous state was not found (%s)" % sorted(set(prevs)))
+    PREV = prevs[0]
+    pvals = sorted(set(e.get("var") for _, _, e in fn.all_events() if e.get("k") == "decl" and e.get("init") is not None and T(strip(e["init"])) == PREV + ".state()"))
+    if len(pvals) != 1:
+        raise AnalysisBroken("set_thread_state: the local holding previous.state() was not found (%s)" % pvals)
+    PVAL = pvals[0]
+    active_atom = "%s == %s" % tuple(sorted([PVAL, TSS + "::active"]))
     # (a) active case
     rets = [(b, i, ev) for b, i, ev in fn.all_events() if ev.get("k") == "return" and (active_atom, True) in (ff.before.get((b, i)) or ())]
     cw = lambda e: e.get("k") == "call" and callee_short(e) == "create_work"
-    reload_ = lambda e: (e.get("k") == "call" and e.get("op") == "=" and P(e.get("recv")) == "previous_state") or \
-        (e.get("k") == "write" and P(e["lhs"]) == "previous_state")
+    reload_ = lambda e: (e.get("k") == "call" and e.get("op") == "=" and P(e.get("recv")) == PREV) or \
+        (e.get("k") == "write" and P(e["lhs"]) == PREV)
     if not rets:
         raise AnalysisBroken("set_thread_state: no return under 'previous state == active'")
     for b, i, ev in rets:
@@ -91,7 +104,7 @@ def run(rep, tier):
             rep.bad("C02.R3", fn, loc_of(ev), "enqueue-without-cas", "schedule_thread reachable without a successful restore_state: a task whose "
                     "state was not changed by this call is enqueued (double execution) or the change is lost")
         # find the block after the loop where previous_state_val is re-derived
-        d2 = [(bb, ii) for bb, ii, e in fn.all_events() if e.get("k") == "decl" and e.get("var") == "previous_state_val"]
+        d2 = [(bb, ii) for bb, ii, e in fn.all_events() if e.get("k") == "decl" and e.get("var") == PVAL]
         start = max(d2, key=lambda p: (-p[0], p[1]))      # the declaration after the loop has the smallest block id
         start = sorted(d2, key=lambda p: p[0])[0]
         pend = {"pending", "pending_boost"}
@@ -101,7 +114,7 @@ def run(rep, tier):
             for nn, nv in enum.items():
                 if nn == "active":
                     continue          # refused at entry
-                env = {"previous_state_val": pv, "new_state": nv}
+                env = {PVAL: pv, NEW: nv}
                 paths = eval_walk(fn, start[0], tree_env=env)
                 reached = any(any(e is ev for _, _, e in evs) for evs, end in paths)
                 allreach = all(any(e is ev for _, _, e in evs) for evs, end in paths)
@@ -126,17 +139,26 @@ def run(rep, tier):
     else:
         b, i, ev = call[0]
         args = ev["args"]
-        if len(args) >= 6 and T(strip(args[5])) == "true" and P(args[1]) == "newstate":
+        A_NEW = fn.params[1]["name"]
+        A_PREV = fn.params[4]["name"] if len(fn.params) > 4 else "previous_state"
+        curs = sorted(set(e.get("var") for _, _, e in fn.all_events() if e.get("k") == "decl" and e.get("init") is not None and callee_short(strip(e["init"])) == "get_state"))
+        A_CUR = curs[0] if len(curs) == 1 else "current_state"
+        if len(args) >= 6 and T(strip(args[5])) == "true" and P(args[1]) == A_NEW:
             rep.ok("C02.R4", fn, "retries with the requested state and retry_on_active = true")
         else:
             rep.bad("C02.R4", fn, loc_of(ev), "retry-args", "the retry must pass the requested new state and retry_on_active=true")
-        A = "current_state.state() == previous_state.state()"
-        B = "current_state == previous_state"
+        A = "%s.state() == %s.state()" % tuple(sorted([A_CUR, A_PREV]))
+        B = "%s == %s" % tuple(sorted([A_CUR, A_PREV]))
+        leaves0 = {a for _, a, _ in cond_leaves(fn)}
+        if A not in leaves0:
+            A = "%s.state() == %s.state()" % (A_CUR, A_PREV) if ("%s.state() == %s.state()" % (A_CUR, A_PREV)) in leaves0 else "%s.state() == %s.state()" % (A_PREV, A_CUR)
+        if B not in leaves0:
+            B = "%s == %s" % (A_CUR, A_PREV) if ("%s == %s" % (A_CUR, A_PREV)) in leaves0 else "%s == %s" % (A_PREV, A_CUR)
         leaves = {a for _, a, _ in cond_leaves(fn)}
         if A not in leaves or B not in leaves:
             rep.bad("C02.R4", fn, fn.loc, "abort-cond", "expected tests of %s and %s (tag comparison); found %s" % (A, B, sorted(l for l in leaves if "state" in l)))
         else:
-            decl = [(bb, ii) for bb, ii, e in fn.all_events() if e.get("k") == "decl" and e.get("var") == "current_state"]
+            decl = [(bb, ii) for bb, ii, e in fn.all_events() if e.get("k") == "decl" and e.get("var") == A_CUR]
             mism = []
             for av in (True, False):
                 for bv in (True, False):
